@@ -15,7 +15,7 @@ typedef char *(*crypt_rn_fn) (const char *, const char *, void *, int);
 static crypt_rn_fn rel_crypt_rn;
 static struct crypt_data *d1, *d2;
 
-struct setdef { int m; int primary; char s[200]; };
+struct setdef { int m; int primary; char s[400]; };
 static struct setdef *sets;
 static int nsets, capsets;
 
@@ -48,7 +48,7 @@ saltstr (char *dst, int n, const char *alpha, int phase)
 static void
 mksets (void)
 {
-  char s[160];
+  char s[400];
   /* md5crypt: every salt length */
   for (int l = 0; l <= 9; l++)
     {
@@ -196,7 +196,7 @@ mksets (void)
         }
   }
   /* salt-length sweeps at the cheapest cost: every length of the range each method accepts (and just beyond) */
-  for (int l = 1; l <= 66; l++)
+  for (int l = 1; l <= 325; l += (l < 130 ? 1 : 5))      /* 328 and more: refused since fixed defect F1, hashed (with an overflow) by 4.4.33 */
     {
       saltstr (s, l, A64, l + 5);
       addset (M_SHA1, 0, "$sha1$20$%s$", s);
@@ -206,7 +206,7 @@ mksets (void)
       saltstr (s, l, A64, l + 9);
       addset (M_SUNMD5, 0, "$md5$%s$", s);
     }
-  for (int l = 0; l <= 130; l++)
+  for (int l = 0; l <= 300; l += (l < 130 ? 1 : 5))
     {
       saltstr (s, l, A64, l + 2);
       addset (M_SCRYPT, 0, "$7$2/..../....%s", s);
